@@ -1,4 +1,5 @@
 import Got.Model.Atomics
+import Got.Spec.Atomics
 /-
 Helper lemmas for C17 (core Lean only, no Mathlib).
 
@@ -11,7 +12,7 @@ set_option linter.unusedSimpArgs false
 set_option linter.unusedVariables false
 
 namespace Got.Lemmas.Atomics
-open Got.Model.Atomics
+open Got.Model.Atomics Got.Spec.Atomics
 
 def lo (w : Word) : BitVec 3 := w.setWidth 3
 
@@ -438,10 +439,6 @@ theorem runF_inv (v0 : W64) (s : FSt) (acts : List FAct) (h : FInv v0 s) : FInv 
   induction acts generalizing s with
   | nil => exact h
   | cons a l ih => exact ih _ (stepF_inv v0 s a h)
-
-/-- OR of the flags of a log of Adds -/
-def orFlags (v0 : W64) (log : List (Nat × FOp)) : W64 :=
-  log.foldl (fun v e => match e.2 with | .add f => v ||| f | .remove _ => v) v0
 
 theorem foldOps_adds (v0 : W64) (log : List (Nat × FOp)) (h : ∀ e ∈ log, ∃ f, e.2 = .add f) :
     foldOps v0 log = orFlags v0 log := by
